@@ -62,6 +62,9 @@ bool Component::ComponentImpl::equalVariables(const ComponentPtr &other) const
 
 bool Component::ComponentImpl::equalResets(const ComponentPtr &other) const
 {
+    if (mResets.size() != other->resetCount()) {
+        return false;
+    }
     std::vector<EntityPtr> entities;
     std::copy(mResets.begin(), mResets.end(), std::back_inserter(entities));
     return equalEntities(other, entities);
